@@ -12,6 +12,17 @@ def format_number(n, n_type):
     if n == 0:
         n = abs(n)  # no "-0"
     s = str(n)
+    if n_type == CellType.DOUBLE and n == n and abs(n) != float('inf'):
+        # str() gives the shortest numeral that reads back as n, but
+        # that is not always n correctly rounded to that many digits
+        # (the last digit may be off by more than half a unit); in
+        # that case show all 17 digits.
+        shown = s.lower().split('e')[0].lstrip('-').replace('.', '')
+        shown = shown.lstrip('0') or '0'
+        rounded = '%.*e' % (len(shown) - 1, abs(n))
+        rounded = rounded.split('e')[0].replace('.', '')
+        if rounded.rstrip('0') != shown.rstrip('0'):
+            s = '%.17g' % n
     if s.endswith('.0'):
         s = s[:-2]
     if 'e' in s and n_type == CellType.DOUBLE:
